@@ -1,6 +1,6 @@
 SPECIFICATION Spec
 CONSTANTS
-  ShtabBreaksDefaults = {"A"}
+  ShtabBreaksDefaults = {"A", "B"}
   ClearOnError = TRUE
   Full = FALSE
   Emit = FALSE
